@@ -141,6 +141,7 @@ def probe(z3, compare, prog, A, ma, sp, seed, tries=3, timeout_ms=8000):
         return out
     H = horizon_of(prog)
     tasks = sorted({op[1][1] for op in prog if head(op) == 'ONewTask'})
+    optional = sorted({op[1][1] for op in prog if head(op) == 'ONewTask' and op[3] is True})
     groups = {}
     for t, e in ma:
         groups.setdefault(t, []).append(e)
@@ -148,8 +149,13 @@ def probe(z3, compare, prog, A, ma, sp, seed, tries=3, timeout_ms=8000):
     for k in range(tries):
         ssp.push()
         if k > 0 and tasks:
-            for t in rng.sample(tasks, min(len(tasks), rng.choice([1, 2]))):
-                ssp.add(z3.Int('T%d_start' % t) == rng.randint(0, max(1, H - 1)))
+            if k % 2 == 1:
+                # decide the optional tasks at random (leaving one unscheduled is where encodings go wrong)
+                for t in optional:
+                    ssp.add(z3.Bool('T%d_scheduled' % t) == (rng.random() < 0.4))
+            if k != 1:
+                for t in rng.sample(tasks, min(len(tasks), rng.choice([1, 2]))):
+                    ssp.add(z3.Int('T%d_start' % t) == rng.randint(0, max(1, H - 1)))
         r = ssp.check()
         if r != z3.sat:
             ssp.pop()
